@@ -1,6 +1,7 @@
 package main
 
 import (
+	"context"
 	"bytes"
 	"errors"
 	"fmt"
@@ -210,8 +211,9 @@ func c06run(out *evid.Out, f *evid.Flags, run int) {
 		}
 	}
 	// chains
-	var nPanicEntries, nPoison int64
+	var nPanicEntries, nPoison, nCtx int64
 	defer func() {
+		out.Count("events_through_a_logger_fetched_from_a_shared_context", nCtx)
 		out.Count("panic_entry_events", nPanicEntries)
 		out.Count("events_through_a_failing_console_destination_nearby", nPoison)
 	}()
@@ -436,6 +438,27 @@ func c06run(out *evid.Out, f *evid.Flags, run int) {
 			}
 		}()
 	}
+	// a context that carries the base logger: some workers fetch their logger from it for every event, while another
+	// goroutine keeps attaching disabled loggers to contexts derived from the same one (muting a sub-tree of its own)
+	sharedCtx := base2.WithContext(context.Background())
+	twg.Add(1)
+	go func() {
+		defer twg.Done()
+		quiet := zerolog.New(io.Discard).Level(zerolog.Disabled)
+		for i := 0; ; i++ {
+			select {
+			case <-stop:
+				return
+			default:
+			}
+			if i%2 == 0 {
+				_ = zerolog.Nop().WithContext(sharedCtx)
+			} else {
+				_ = quiet.WithContext(sharedCtx)
+			}
+			runtime.Gosched()
+		}
+	}()
 	var wg sync.WaitGroup
 	start := make(chan struct{})
 	for w := 0; w < G; w++ {
@@ -450,8 +473,12 @@ func c06run(out *evid.Out, f *evid.Flags, run int) {
 				l = l.Sample(admitAll6{})
 			}
 			useSampled := withSampler && w%4 == 0
+			useCtx := !withSampler && w%4 == 0 && w%5 != 4 && destKind != 4 && destKind != 8 && destKind != 9
 			emitAll(&l, root2, w, func(i int, lr *zerolog.Logger, c *chain6) {
 				switch {
+				case useCtx:
+					atomic.AddInt64(&nCtx, 1)
+					emit(zerolog.Ctx(sharedCtx), c) // the base logger, fetched from the shared context for every event
 				case useSampled:
 					atomic.AddInt64(&sampledIssued, 1)
 					emit(&sampled, c)
